@@ -27,6 +27,7 @@ fn args() -> (String, HashMap<String, String>) {
 fn cfg_of(name: &str) -> gen::Cfg {
     match name {
         "full" => gen::Cfg::full(),
+        "fn" => gen::Cfg::functions(),
         "dups" => gen::Cfg { distinct_rule_names: false, max_rules: 5, ..gen::Cfg::core() },
         _ => gen::Cfg::core(),
     }
@@ -62,7 +63,10 @@ fn main() {
                     }
                     obs
                 };
-                let line = json!({"i": i + 1, "prog": prog, "doc": doc, "obs": obs});
+                let mut line = json!({"i": i + 1, "prog": prog, "doc": doc, "obs": obs});
+                if cfg.functions {
+                    line["tab"] = gv::oracle::table(&prog, &doc);
+                }
                 writeln!(f, "{}", line).unwrap();
             }
         }
@@ -122,7 +126,11 @@ fn main() {
                         obs["tree"] = t;
                     }
                     i += 1;
-                    writeln!(f, "{}", json!({"i": i, "grp": grp, "var": var, "ptr": ptr, "target": target, "prog": p2, "doc": doc, "obs": obs})).unwrap();
+                    let mut line = json!({"i": i, "grp": grp, "var": var, "ptr": ptr, "target": target, "prog": p2, "doc": doc, "obs": obs});
+                    if cfg.functions {
+                        line["tab"] = gv::oracle::table(&p2, &doc);
+                    }
+                    writeln!(f, "{}", line).unwrap();
                 }
             }
         }
@@ -153,6 +161,9 @@ fn main() {
                     }
                     *i += 1;
                     let mut line = json!({"i": *i, "grp": grp, "var": var, "prog": p, "doc": doc, "obs": obs});
+                    if cfg.functions {
+                        line["tab"] = gv::oracle::table(p, &doc);
+                    }
                     if var == "DR" {
                         for r0 in p["rules"].as_array().unwrap() {
                             let n = r0["n"].as_str().unwrap();
